@@ -481,7 +481,7 @@ pub fn judge(case: &Case, f: &Facts, obs: &Obs) -> Result<&'static str, String> 
             // split policy: never more outputs than the policy targets, none below the minimum
             let k = non_eph.len() as i128;
             if k > f.target_k || (m.t > 0 && k > 1) {
-                return Err(format!("{} change outputs although the policy targets at most {}", k, f.target_k));
+                return Err(format!("too many change outputs: {} although the policy targets at most {}", k, f.target_k));
             }
             if k > 1 {
                 if let Some(min) = cfg.split_min {
